@@ -35,8 +35,11 @@ NextNominal(fv) ==
 JitterLo(n) == IF n = 0 THEN 0 ELSE IF cfg.jit # 0 THEN n - cfg.jit ELSE IF cfg.jfp # 0 THEN (n * (100 - cfg.jfp)) \div 100 ELSE n
 JitterHi(n) == IF n = 0 THEN 0 ELSE IF cfg.jit # 0 THEN n + cfg.jit ELSE IF cfg.jfp # 0 THEN (n * (100 + cfg.jfp)) \div 100 + 1 ELSE n
 
-\* d = (q, rz) lies in [lo, hi] up to the tolerance
-Within(q, rz, lo, hi) == q >= lo - cfg.tol /\ (q < hi + cfg.tol \/ (q = hi + cfg.tol /\ rz))
+\* d = (q, rz) lies in [lo, hi] up to the tolerance.  With a 1 ns unit (tol = 8) the code's whole-nanosecond truncation of every
+\* backoff step is multiplied by the factor at every later step: after many steps the deviation from the real-number formula is
+\* a fraction of the value itself (at most value / (delay * (factor - 1)), under half a percent for the configurations used)
+TolAt(hi) == cfg.tol + (IF cfg.tol >= 8 THEN hi \div 200 ELSE 0)
+Within(q, rz, lo, hi) == q >= lo - TolAt(hi) /\ (q < hi + TolAt(hi) \/ (q = hi + TolAt(hi) /\ rz))
 
 \* is the scheduled delay (q, rz) allowed at elapsed time el (floor, units)?
 Allowed(q, rz, el, fv) ==
